@@ -920,6 +920,21 @@ def _simplify_defensive(fn: ast.AST) -> int:
                             stmts[i] = new
                             count[0] += 1
                             continue
+                # S22  if F: A ; if not F or C: LEAVE   ->   if not F: LEAVE ; A ; if C: LEAVE      (F a plain flag that A does not assign)
+                if isinstance(st, ast.If) and not st.orelse and _leaves(st.body) and out and isinstance(out[-1], ast.If) and not out[-1].orelse and isinstance(out[-1].test, ast.Name) \
+                        and isinstance(st.test, ast.BoolOp) and isinstance(st.test.op, ast.Or) and len(st.test.values) >= 2 and isinstance(st.test.values[0], ast.UnaryOp) \
+                        and isinstance(st.test.values[0].op, ast.Not) and isinstance(st.test.values[0].operand, ast.Name) and st.test.values[0].operand.id == out[-1].test.id \
+                        and not stores_in(out[-1].body, out[-1].test.id) and not _leaves(out[-1].body) and out[-1].test.id not in par:
+                    first = out.pop()
+                    guard = ast.copy_location(ast.If(test=ast.UnaryOp(op=ast.Not(), operand=ast.Name(id=first.test.id, ctx=ast.Load())), body=copy.deepcopy(st.body), orelse=[]), first)
+                    rest_test = st.test.values[1] if len(st.test.values) == 2 else ast.BoolOp(op=ast.Or(), values=st.test.values[1:])
+                    st.test = rest_test
+                    new_seq = [guard] + list(first.body) + [st]
+                    for x in new_seq:
+                        ast.fix_missing_locations(x)
+                    stmts[i:i + 1] = new_seq
+                    count[0] += 1
+                    continue
                 # S19  x = <constant> ; if C: x = E   ->   if C: x = E / else: x = <constant>     (a default that is overridden: each value under its own condition)
                 if isinstance(st, ast.If) and not st.orelse and out and plain_assign(out[-1]) is not None and isinstance(out[-1].value, (ast.Constant, ast.Tuple)) \
                         and all(isinstance(x, ast.Constant) for x in (out[-1].value.elts if isinstance(out[-1].value, ast.Tuple) else [out[-1].value])):
